@@ -100,6 +100,13 @@ func (p Proof) Prove(key string) error {
 				continue
 			}
 
+			// NOTE at the first level only the node of the key itself can be
+			// the parent of the listed children; the sibling does not prove
+			// the key.
+			if i == 0 && parents[j].Key() != key {
+				continue
+			}
+
 			switch h, err := nodeHash(parents[j], nodes[bi], nodes[bi+1]); {
 			case err != nil:
 				return e.Wrap(err)
